@@ -306,6 +306,8 @@ def maxInt53 : Int := 9007199254740992
 /-- narrow classifier for a compiler key that differs from the runtime's -/
 def classifyRuntime (args : Args) : String :=
   if argsAny (fun v => match v with | .str s => s.any (· ≥ 0x10000) | _ => false) args then "astral-utf16-length"
+  else if argsAny (fun v => match v with | .str s => s.contains 34 || s.contains 10 || s.contains 13 | _ => false) args then
+    "string-breaks-js-literal"
   else if argsAny (fun v => match v with | .str s => s.contains 92 | _ => false) args then "string-escape-js-evaluated"
   else if argsAny (fun v => match v with | .int i => i > maxInt53 || i < -maxInt53 | _ => false) args then "int-beyond-2^53"
   else if argsAny (fun v => match v with | .float _ => true | _ => false) args then "float-format"
